@@ -110,7 +110,7 @@ import ast  # noqa
 
 def build(repo):
     D = Dom(repo)
-    D.ghost_shapes = {'ulo': 'fp', 'uhi': 'fp', 'lo': 'fp', 'hi': 'fp', 'first': 'bool', 'col': 'int'}
+    D.ghost_shapes = {'ulo': 'fp', 'uhi': 'fp', 'lo': 'fp', 'hi': 'fp', 'first': 'bool', 'col': 'int', 'x0pre': 'fp', 'pushed': 'bool'}
     fs = D.field_shapes
     for f in ('xl', 'xu', 'xbase', 'sl', 'su', 'points', 'xsave'):
         fs[('Model', f)] = 'fp' if f != 'xsave' else 'opt:fp'
@@ -245,6 +245,7 @@ def build(repo):
         st.heap[('G', 'ulo')] = z3.If(z3.Or(b_none, lo_none), fpv(-1e20), lower)
         st.heap[('G', 'uhi')] = z3.If(z3.Or(b_none, up_none), fpv(1e20), upper)
         st.env['projections'] = ProjListB()
+        st.heap[('G', 'pushed')] = z3.BoolVal(False)
     D.contract('solve', tags=['C01', 'C09'], setup=setup_solve,
                params={'x0': 'fp', 'scaling_within_bounds': 'bool', 'objfun': 'cb:objfun', 'nsamples': 'opt:cb:nsamples', 'h': 'opt:cb:h',
                        'rhobeg': 'opt:fp', 'rhoend': 'fp', 'npt': 'opt:int', 'maxfun': 'opt:int', 'lh': 'opt:fp'},
@@ -258,7 +259,12 @@ def build(repo):
                              'solve_main#1': [('G.lo', 'ite(projections, xlb, xl)'), ('G.hi', 'ite(projections, xub, xu)'), ('G.first', 'True')],
                              'solve_main#2': [('G.first', 'False')], 'solve_main#3': [('G.first', 'False')]},
                loops={'while#0': ['inbox(xmin)', 'finite(xmin)', 'box_ok()']},
-               modifies=['G.lo', 'G.hi', 'G.first', 'params[*]'], result='unk',
+               # ghost: x0 as it stands immediately before the two statements that push it into the bounds (the first assignment to the mask `idx`)
+               ghost_after_assign={'idx': [('G.x0pre', 'ite(G.pushed, G.x0pre, x0)'), ('G.pushed', 'True')]},
+               asserts={'before:solve_main#1': [('(C14) without projections the first run starts from the PROJECTION of x0 onto the bounds: a component below its lower bound is moved to '
+                                                 'that lower bound, a component above its upper bound to that upper bound, every other component is kept:: '
+                                                 'implies(not projections and G.pushed, x0 == ite(G.x0pre < xl, xl, ite(G.x0pre > xu, xu, G.x0pre)))', 'C14', 'C01')]},
+               modifies=['G.lo', 'G.hi', 'G.first', 'G.x0pre', 'G.pushed', 'params[*]'], result='unk',
                ensures=['T_C01: the returned solution lies inside the caller\'s bounds, exactly:: implies(result.flag != EXIT_INPUT_ERROR, inuser(result.x))'])
     # ------------------------------------------------------------------ C14 / C01 (5): the direction generators clip every returned direction into [lower, upper]
     for q, loopkey in (('random_directions_within_bounds', 'for:i#1'), ('random_orthog_directions_within_bounds', 'for:i#5')):
